@@ -51,8 +51,11 @@ inductive Micro where
 
 namespace Ctx
 
-/-- The second debt test of the loop (`if run_until == PayDebt && !(debt > 0.0) { break }`). -/
-def debtBreak (c : Ctx) (ru : RunUntil) : Bool := ru = .payDebt && !c.metrics.hasDebt
+/-- The second debt test of the loop:
+    `if run_until == PayDebt && !(debt > 0.0) && !(phase == Sweep && sweep.is_none()) { break }`
+    (the last conjunct is the repair of defect D5: never park in `Sweep` with nothing left to sweep). -/
+def debtBreak (c : Ctx) (ru : RunUntil) : Bool :=
+  ru = .payDebt && !c.metrics.hasDebt && !(c.phase = .sweep && c.rest.isEmpty)
 
 /-- The body of `loop { … }` in `do_collection`, with fuel.  `k` counts `trace` calls so far. -/
 def collectLoop (root : List Slot) (ru : RunUntil) (stop : Stop) (fault : TraceFault) :
